@@ -51,6 +51,7 @@ def run(tier):
         consts = hc.handler_consts(names[:n], ["a"], R, sb, sm, dup=dup, foreign=frn)
         consts["F"] = "a"
         consts["Emit"] = True
+        consts.update({"BadFrom": "none", "BadRd": 0, "BadB": False})
         c = vlib.cfg(consts, spec="LSpec", invariants=["LNeverAborts", "LDoneWhenAll", "LNoEarlyDone", "EmitHist"],
                      properties=["LProgress"])
         r = vlib.tlc(wd, "HandlerLocal", c, workers=1, timeout=3000)
